@@ -4,21 +4,22 @@ EXTENDS Faults
 VARIABLES st, op, a, xs, f
 vars == <<st, op, a, xs, f>>
 Ops == {"set_v", "setq_v", "read_dflt", "read_p", "set_p", "read_cp", "lst_extend", "sset_update", "sset_symdiff", "sup_assign",
-        "ea_assign", "set_dr", "read_dr", "sync_a", "sync_b"}
+        "ea_assign", "set_dr", "read_dr", "sync_a", "sync_b", "dct_update", "dct_ior", "dct_setitem"}
 Sites == Deciding \cup HandlerSites \cup {"cpgetter_notify", "none"}
 \* every operation reads and writes only its own part of the state: the other part is held at its initial value
 NewOps == {"ea_assign", "set_dr", "read_dr", "sync_a", "sync_b"}
-OldPart == [v : {0, 1}, vq : {0}, dflt : {-1, 7}, p : {0}, lst : {<<>>, <<1>>}, sset : {<<>>, <<1, 2>>}, sup : {0, 1}, cached : {0, 1}]
+OldPart == [v : {0, 1}, vq : {0}, dflt : {-1, 7}, p : {0}, lst : {<<>>, <<1>>}, sset : {<<>>, <<1, 2>>}, sup : {0, 1}, cached : {0, 1},
+            dct : {<<>>, <<<<1, 1>>>>}]
 NewPart == {n \in [ea : {0}, dr : {-1, 2}, start : {-1, 3}, sva : {0, 1}, svb : {0, 1}] : n.dr # -1 => n.start # -1}
-Join(o, n) == [v |-> o.v, vq |-> o.vq, dflt |-> o.dflt, p |-> o.p, lst |-> o.lst, sset |-> o.sset, sup |-> o.sup, cached |-> o.cached,
+Join(o, n) == [v |-> o.v, vq |-> o.vq, dflt |-> o.dflt, p |-> o.p, lst |-> o.lst, sset |-> o.sset, sup |-> o.sup, cached |-> o.cached, dct |-> o.dct,
                ea |-> n.ea, dr |-> n.dr, start |-> n.start, sva |-> n.sva, svb |-> n.svb]
-Old0 == [v |-> 0, vq |-> 0, dflt |-> -1, p |-> 0, lst |-> <<>>, sset |-> <<>>, sup |-> 0, cached |-> 0]
+Old0 == [v |-> 0, vq |-> 0, dflt |-> -1, p |-> 0, lst |-> <<>>, sset |-> <<>>, sup |-> 0, cached |-> 0, dct |-> <<>>]
 New0 == [ea |-> 0, dr |-> -1, start |-> -1, sva |-> 0, svb |-> 0]
 StatesFor(o) == IF o \in NewOps THEN {Join(Old0, n) : n \in NewPart} ELSE {Join(x, New0) : x \in OldPart}
 Init == /\ op \in Ops /\ st \in StatesFor(op) /\ a \in {0, 1, 2, Bad}
         /\ xs \in {<<>>, <<1>>, <<2, 3>>, <<1, Bad>>, <<3, 2, 1>>}
         /\ f \in [site : Sites, occ : 0..3, exc : {"ValueError"}]
-        /\ (op = "sup_assign" => a \in 0..2) /\ (op = "ea_assign" => a \in 0..1)
+        /\ (op = "sup_assign" => a \in 0..2) /\ (op = "ea_assign" => a \in 0..1) /\ (op = "dct_setitem" => xs # <<>>)
 Next == UNCHANGED vars
 Spec == Init /\ [][Next]_vars
 R == Apply(op, st, a, xs, f)
